@@ -203,7 +203,7 @@ func runC18(r *ev.Run) {
 	locus := byte(0xA5)
 	uni := smallUniverse(locus)
 	depth := pick(r, 3, 4)
-	maxStates := pick(r, 4000, 60000)
+	maxStates := pick(r, 12000, 60000)
 	cfgs := smallConfigs(locus)
 	totalStates, totalTrans := 0, 0
 	for ci, cfg := range cfgs {
@@ -247,7 +247,7 @@ func runC18(r *ev.Run) {
 		r.Eval(int64(tr))
 	}
 	// --- random part
-	nSeq := pick(r, 60, 1500)
+	nSeq := pick(r, 120, 1500)
 	seqLen := pick(r, 1500, 6000)
 	g := rng.New(r.Seed, "C18", "random", fmt.Sprint(r.Batch))
 	for i := 0; i < nSeq; i++ {
